@@ -304,7 +304,25 @@ def mutate_valid(rng, doc):
             for i, v in enumerate(o):
                 walk(v, path + [i])
     walk(d, [])
-    kind = rng.choice(['unknown-key', 'wrong-type', 'missing-required', 'bad-enum', 'wrong-version', 'bad-model-name'])
+    kind = rng.choice(['unknown-key', 'wrong-type', 'missing-required', 'bad-enum', 'wrong-version', 'bad-model-name', 'unsupported-option'])
+    if kind == 'unsupported-option':
+        # option values the schema cannot exclude (free strings) but the documentation lists the supported values of
+        cands = []
+        feats = [f for f in d.get('features', []) if isinstance(f, dict)]
+        if any(f.get('interpolation', 'global') == 'global' for f in feats):
+            cands.append((d, 'interpolation', ['linear', 'monotone spline', 'none', 'cubic'], 'world'))
+        for f in feats:
+            cands.append((f, 'interpolation', ['linear', 'monotone spline', 'none', 'Global'], 'feature'))
+        for (o, p) in objs:
+            if o.get('model') == 'tian water content':
+                cands.append((o, 'lithology', ['granite', 'morb', 'Peridotite', ''], 'model'))
+            if o.get('model') == 'mass conserving':
+                cands.append((o, 'reference model name', ['half space', 'plate', 'Plate model', ''], 'model'))
+        if not cands:
+            return None, kind
+        o, k, values, where = rng.choice(cands)
+        o[k] = rng.choice(values)
+        return d, '%s:%s:%s' % (kind, k, where)
     if kind == 'wrong-version':
         d['version'] = rng.choice(['0.1', '1.0', '2.0', '', '1.1.0', 'x', '1.10', '1.12', '1.1x', '1.1-beta', '1.15.3', ' 1.1', '1.1 ', '01.1', '1.1\n', '1,1', '1.01'])
         return d, kind
@@ -556,7 +574,7 @@ def main(tier, seed, replay):
             r0 = c.results[0]
             verdict2 = second.get(core.workfile(PID, fn))
             if r0[0] == 'ok':
-                if verdict2 == 'valid' and cls != 'wrong-version':      # the version is checked by the library, not by the schema
+                if verdict2 == 'valid' and cls != 'wrong-version' and not cls.startswith('unsupported-option'):      # checked by the library, not by the schema
                     V.coverage['mutations_the_published_schema_allows'] = V.coverage.get('mutations_the_published_schema_allows', 0) + 1
                 else:
                     V.violation('schema-violation-accepted:%s' % cls, {'file': fn, 'class': cls, 'document': m, 'jsonschema': verdict2})
